@@ -138,7 +138,12 @@ let oidc main aliases aud subjects cic now vals table cls osub ocid oscopes =
     | [s; t] -> (as_bytes s, token_of t) | _ -> failwith "bad table") (as_list table) in
   let parse (t : n list) : token =
     match List.assoc_opt (coq_to_bytes t) table with Some tk -> tk | None -> TokMalformed in
-  let vals = strs vals in
+  (* header values are written around the first table token: (1 before after) | (0 value) *)
+  let tok0 = match table with (s, _) :: _ -> s | [] -> "" in
+  let vals = List.map (fun v -> match as_list v with
+    | [k; s] when as_int k = 0 -> as_cbytes s
+    | [k; a; b] when as_int k = 1 -> bytes_to_coq (as_bytes a ^ tok0 ^ as_bytes b)
+    | _ -> failwith "bad header value") (as_list vals) in
   let now = z_of_dec (as_dec now) in
   match oidc_new (as_cbytes main) (strs aliases) (as_cbytes aud) (strs subjects) (strs cic) with
   | None -> if obs = 7 then "OK" else Printf.sprintf "DIFF constructor model=refuse impl=%d" obs
